@@ -1886,7 +1886,7 @@ func (ctx *RenderContext) ToString(val interface{}) string {
 	case float32:
 		return strconv.FormatFloat(float64(v), 'f', -1, 32)
 	case float64:
-		return strconv.FormatFloat(v, 'f', -1, 64)
+		return strconv.FormatFloat(v+0, 'f', -1, 64) // v+0: a negative zero prints as 0
 	case bool:
 		return strconv.FormatBool(v)
 	case []byte:
